@@ -98,7 +98,7 @@ def bipNode (st : Bip) (p : Nat × Nat) : Bip :=
     idToObj := AL.set st.idToObj (.N p.2) (.node p.1),
     objToId := AL.set st.objToId (.node p.1) (.N p.2) }
 
-/-- `g.add_edge(obj_to_id[edge], obj_to_id[node])`; a node that is not in the table is a `KeyError` in Python
+/-- `g.add_edge(edge_id, obj_to_id[node])`; a node that is not in the table is a `KeyError` in Python
 (cannot happen: members of hyperedges are nodes - hypothesis of the theorems), skipped here -/
 def bipLink (ev : BV) (st : Bip) (n : Nat) : Bip :=
   match AL.get? st.objToId (.node n) with
@@ -106,16 +106,42 @@ def bipLink (ev : BV) (st : Bip) (n : Nat) : Bip :=
   | none => st
 
 /-- body of `for edge in h.get_edges()` (`p = (edge, idx)`; `tuple(sorted(edge))` is the identity on canonical
-hyperedges) -/
+hyperedges).  Repaired code (fix 0dd3340, D54): the vertex name of the hyperedge is the local `edge_id`; `obj_to_id` holds
+node labels only, so it does not matter whether a node label is, as a Python object, equal to a hyperedge tuple. -/
 def bipEdge (st : Bip) (p : Edge × Nat) : Bip :=
   let st1 : Bip :=
     { g := st.g.addNode (.E p.2) (some 1),
       idToObj := AL.set st.idToObj (.E p.2) (.edge p.1),
-      objToId := AL.set st.objToId (.edge p.1) (.E p.2) }
+      objToId := st.objToId }
   p.1.foldl (bipLink (.E p.2)) st1
 
 def bipartite (nodes : List Nat) (es : List Edge) : Bip :=
   es.zipIdx.foldl bipEdge (nodes.zipIdx.foldl bipNode {})
+
+/-! #### the routine before the repair: ONE table `obj_to_id` for node labels and hyperedge tuples
+
+Node labels are arbitrary hashable Python objects, in particular tuples: the node `(1, 2)` and the hyperedge
+`(1, 2)` are the same dictionary key.  Labels are ranks (`Nat`) in this model, so the coincidence is a parameter:
+`tl e = some n` says that the node label `n` is, as a Python object, equal to the tuple of hyperedge `e`
+(`none`: no node label equals it - always the case for int / str labels). -/
+
+/-- the key under which `obj_to_id[edge] = ...` is stored -/
+def edgeKey (tl : Edge → Option Nat) (e : Edge) : Obj :=
+  match tl e with
+  | some n => .node n
+  | none => .edge e
+
+/-- body of `for edge in h.get_edges()` before the repair: `obj_to_id[edge] = "E" + str(idx)` goes into the table the
+inner loop reads the node vertices from -/
+def bipEdgeShared (tl : Edge → Option Nat) (st : Bip) (p : Edge × Nat) : Bip :=
+  let st1 : Bip :=
+    { g := st.g.addNode (.E p.2) (some 1),
+      idToObj := AL.set st.idToObj (.E p.2) (.edge p.1),
+      objToId := AL.set st.objToId (edgeKey tl p.1) (.E p.2) }
+  p.1.foldl (bipLink (.E p.2)) st1
+
+def bipartiteShared (tl : Edge → Option Nat) (nodes : List Nat) (es : List Edge) : Bip :=
+  es.zipIdx.foldl (bipEdgeShared tl) (nodes.zipIdx.foldl bipNode {})
 
 /-! ### clique_projection -/
 
